@@ -261,6 +261,11 @@ DoRet(s, e) ==
             LET quiet == \A q \in DOMAIN s.pc : q = e.p \/ s.pc[q].op = "none" IN
             Vif(Vif(s0, c.ac /\ e.n # 0, "C16", "len_nonzero_after_close"),
                 quiet /\ ~Get(s.rdirty, e.p, TRUE) /\ ~s.closed /\ e.n # Cardinality({k \in KeyDom : s.mp[k] # 0}), "C16", "len_differs_from_resident_count")
+       [] e.op = "stats" ->
+            \* C16: once all calls have returned, Hits + Misses = Get calls made and Hits = those that returned a value -
+            \* also on a cache that has been closed since
+            LET quiet == \A q \in DOMAIN s.pc : q = e.p \/ s.pc[q].op = "none" IN
+            Vif(s0, quiet /\ s.mode # "replay" /\ (e.n # s.hits \/ e.n + e.n2 # s.gets), "C16", "stats_differ_from_get_calls_made")
        [] e.op = "close" -> [s0 EXCEPT !.closedDone = TRUE]
        [] OTHER -> s0
 
